@@ -36,6 +36,7 @@ type scenario struct {
 	Writers     []writer `json:"writers"`
 	CloseEarly  bool     `json:"closeEarly"`  // a closer worker runs concurrently in phase 1
 	CloseAfterUs int     `json:"closeAfterUs"`
+	WriterCloses int     `json:"writerCloses,omitempty"` // k>0: writer #k-1 closes the buffer right after its last Write (the two wake-ups follow each other directly)
 	Deadline    []dlOp   `json:"deadline"`    // one worker issuing SetReadDeadline calls
 	SeqPrefill  int      `json:"seqPrefill"`  // sequential sub-oracle: packets written and read back by main first
 }
@@ -57,6 +58,9 @@ func gen(r *harn.Rng, tier string) interface{} {
 	if r.Bool(0.25) {
 		sc.CloseEarly = true
 		sc.CloseAfterUs = r.Pick(0, 0, 1, 50, 1000)
+	}
+	if !sc.CloseEarly && r.Bool(0.2) {
+		sc.WriterCloses = 1 + r.Intn(nw)
 	}
 	if r.Bool(0.3) {
 		for j, n := 0, r.Range(1, 3); j < n; j++ {
@@ -190,6 +194,7 @@ func run(env *simrt.Env, sci interface{}) {
 		}))
 	}
 	var others []*simrt.Handle
+	closedEarly := false
 	for i := range sc.Writers {
 		i := i
 		others = append(others, env.Go(fmt.Sprintf("writer%d", i), func() {
@@ -205,9 +210,12 @@ func run(env *simrt.Env, sci interface{}) {
 					note(fmt.Sprintf("writer %d: unexpected error %v", i, err))
 				}
 			}
+			if sc.WriterCloses == i+1 {
+				_ = b.Close()
+				closedEarly = true
+			}
 		}))
 	}
-	closedEarly := false
 	if sc.CloseEarly {
 		others = append(others, env.Go("closer", func() {
 			env.Sleep(time.Duration(sc.CloseAfterUs) * time.Microsecond)
